@@ -206,6 +206,24 @@ Definition canonical_sched (ss : streams) (p1 : list (string * nat)) : list acti
 Definition model_client (c : case) (q : cquery) : view :=
   pipeline (c_cfg c) (c_streams c) q (canonical_sched (c_streams c) (c_phase1 c)).
 
+(** the same with every later message delivered to the client before the next
+    one arrives (the fake targets pace their messages): the other extreme of
+    queue coalescing.  Both schedules give the same view for streams within the
+    hypotheses of [relay_faithful]; outside them (a value the client cannot
+    decode, an update suppressed as unchanged) the view may depend on the
+    schedule, and an observation is accepted when either predicts it. *)
+Definition paced_sched (ss : streams) (p1 : list (string * nat)) : list action :=
+  let k := S (count_updates ss) in
+  flat_map (fun nk => repeat (AIngest (fst nk)) (snd nk)) p1
+  ++ [ASubscribe] ++ repeat ASend k
+  ++ flat_map (fun ns =>
+                 let before := match assoc (fst ns) p1 with Some b => b | None => 0%nat end in
+                 flat_map (fun _ => AIngest (fst ns) :: repeat ASend k)
+                          (skipn before (snd ns))) ss.
+
+Definition model_client_paced (c : case) (q : cquery) : view :=
+  pipeline (c_cfg c) (c_streams c) q (paced_sched (c_streams c) (c_phase1 c)).
+
 Definition model_seen (c : case) (name : string) : option sub_request :=
   match collector_start (c_cfg c) with
   | Some (managed, _) => assoc name managed
@@ -301,36 +319,17 @@ Definition has_negzero (s : list item) : bool :=
                      | IUpd n => existsb (fun u => tv_has_negzero (snd u)) (n_updates n)
                      end) s.
 
-Definition uses_elem (g : gpath) : bool := match g_elem g with [] => false | _ => true end.
-Definition uses_element (g : gpath) : bool :=
-  match g_elem g, g_element g with [], _ :: _ => true | _, _ => false end.
-
-Definition has_mixed_encoding (s : list item) : bool :=
-  existsb (fun it => match it with
-                     | IUpd n =>
-                         match n_prefix n with
-                         | Some pre =>
-                             existsb (fun u => (uses_elem pre && uses_element (fst u))
-                                               || (uses_element pre && uses_elem (fst u))) (n_updates n)
-                         | None => false
-                         end
-                     | ISync => false
-                     end) s.
-
 (** class of a failed expectation about target [name]:
     1  the subscription is refused as NotFound / the CLI fails although the
        target is configured (gnmi_collector never registers targets with its cache)
     3  the stream carries an origin in a path (indexed without it)
     4  the stream carries a negative zero (an update between +0 and -0 is
        suppressed as unchanged)
-    5  the stream mixes elem and element encodings between prefix and path
-       (the delete notification of such a leaf names only the elem part)
     (class 2, -proto_file, is decided at the CLI step) *)
 Definition stream_class (c : case) (name : string) (notfound : bool) : N :=
   if notfound then (if defect_C01_1 then 1%N else 0%N)
   else if has_path_origin (stream_of c name) then 3%N
   else if has_negzero (stream_of c name) then 4%N
-  else if has_mixed_encoding (stream_of c name) then 5%N
   else 0%N.
 
 Definition tagged (i : nat) (k : N) : list (nat * N) :=
@@ -397,7 +396,8 @@ Fixpoint check_clients (i : nat) (c : case) (l : list (cquery * obs)) : list (na
   match l with
   | [] => []
   | (q, o) :: l' =>
-      (if view_agrees (negb (decodable (stream_of c (g_target (cq_prefix q))))) (model_client c q) o
+      (let lax := negb (decodable (stream_of c (g_target (cq_prefix q)))) in
+       if view_agrees lax (model_client_paced c q) o || view_agrees lax (model_client c q) o
        then [] else [(i, 1%N)])
       ++ kp_client i c q o ++ check_clients (S i) c l'
   end.
